@@ -221,6 +221,10 @@ func (fc *FnCtx) loopHead(li *loopInfo, st *State) {
 		if phi.Comment == "rangeindex" {
 			fc.assume(and(app("<=", "(- 1)", v.S), app("<=", v.S, maxLen)))
 		}
+		if c, ok := counterLowerBound(li, phi); ok {
+			// `for i := c; i < X; i++`: the counter never drops below its start (see typenote.go)
+			fc.assume(app("<=", itoa(c), v.S))
+		}
 		if bound != nil {
 			fc.assume(and(app("<=", "0", v.S), app("<", v.S, fc.val(bound).S)))
 		}
